@@ -20,6 +20,7 @@ static void honest_gen(Plan *p, uint64_t run_seed, uint64_t variant, int tier)
 	if (!p->mutual && rng_chance(&g, 1, 4)) p->cred_mode |= 4;
 	if (rng_chance(&g, 1, 3)) p->cred_mode |= 8;       /* 8 = the TLS_CONNECT objects are re-used, not fresh */
 	if (p->mutual && rng_chance(&g, 1, 6)) p->cred_mode = (p->cred_mode & ~1) | 128;      /* 128 = the client's leaf alone is larger than the server's chain */
+	if (p->proto == P_TLS13 && rng_chance(&g, 1, 6)) p->cred_mode |= 256;    /* 256 = every writing round starts with a zero-length write (TLS 1.3) */
 	if (p->proto != P_TLS13 && rng_chance(&g, 1, 8)) p->cred_mode |= 32;     /* 32 = one entropy draw fails during a data write and the application writes again */
 	if (rng_chance(&g, 1, 8)) p->cred_mode = (p->cred_mode & ~1) | 16;     /* 16 = chains of the largest admissible size, minus (plan_seed mod 10) bytes */
 }
